@@ -327,3 +327,10 @@ func (ob *BoundOb) Describe() string {
 	}
 	return strings.Join(parts, "; ")
 }
+
+// LenLinOf returns the length of a slice/array/string valued expression as
+// a linear form under env (nil if it cannot be tracked).
+func (b *Bounds) LenLinOf(env *Env, e ast.Expr) *Lin {
+	l, _ := b.lenLin(env, e)
+	return l
+}
